@@ -326,11 +326,12 @@ func (r *qrun) call() dht.QueryResult {
 }
 
 type qstatus struct {
-	Id       int    `json:"id"`
-	Diverged bool   `json:"diverged"`
-	Skipped  int    `json:"skipped"`
-	Hang     string `json:"hang"`
+	Id       int      `json:"id"`
+	Diverged bool     `json:"diverged"`
+	Skipped  int      `json:"skipped"`
+	Hang     string   `json:"hang"`
 	Leaked   []string `json:"leaked"`
+	Dirty    bool     `json:"dirty"`
 }
 
 func runQuery(tr *sim.Trace, seg int, seed int64, sc qscript) qstatus {
@@ -406,7 +407,20 @@ func runQuery(tr *sim.Trace, seg int, seed int64, sc qscript) qstatus {
 				r.release(tok)
 			}
 		case "bwait":
-			time.Sleep(3 * time.Millisecond) // the sender is (about to be) blocked in the limiter; nothing to see
+			// the sender blocks in the limiter: no gate sees that, the goroutine scan does
+			deadline := time.Now().Add(expectBound)
+			for in := false; !in; {
+				for _, g := range scan() {
+					in = in || g.has("rate.(*Limiter).Wait")
+				}
+				if !in && time.Now().After(deadline) {
+					r.diverged = true
+					break
+				}
+				if !in {
+					time.Sleep(100 * time.Microsecond)
+				}
+			}
 		case "reply":
 			r.reply()
 		case "ret":
@@ -467,5 +481,6 @@ func runQuery(tr *sim.Trace, seg int, seed int64, sc qscript) qstatus {
 	r.cancel()
 	closeServer(r.srv, r.conn)
 	waitServeLoopGone(own)
-	return qstatus{Id: sc.Id, Diverged: r.diverged, Skipped: r.skipped, Hang: r.hang, Leaked: sigs(left)}
+	return qstatus{Id: sc.Id, Diverged: r.diverged, Skipped: r.skipped, Hang: r.hang, Leaked: sigs(left),
+		Dirty: txns != 0 || len(left) != 0}
 }
